@@ -10,6 +10,28 @@ ROOT = os.path.dirname(os.path.dirname(os.path.abspath(__file__)))
 TECH = 'deterministic simulation with fault injection: '
 
 CLAIMED = {
+  'C01': dict(
+    technique=TECH + 'seeded segmentation / interleaving / pause schedules of client byte streams delivered to the '
+    'real listener protocols of a booted carbon-cache; per-chunk oracle against the client\'s own datapoint list',
+    text='1..4 line, pickle (protocols 0-5) and UDP clients; every TCP stream is cut at seeded positions (1-byte runs, '
+         'inside UTF-8 characters, inside the 4-byte length prefix, coalesced frames), connections interleave, '
+         'receivers are paused and resumed mid-stream, datagrams are dropped / duplicated / reordered. After every '
+         'delivered chunk the pipeline recorder must hold exactly the datapoints whose frames that chunk completed.',
+    ref='6 (C01)'),
+  'C11': dict(
+    technique=TECH + 'malformed frames built by construction interleaved with well-formed ones under the C01 '
+    'segmentation schedule; exceptions escaping dataReceived/datagramReceived are caught at the SimNet seam',
+    text='Invalid UTF-8, wrong field counts, unparsable and non-finite numbers, truncated / garbage pickles, pickles '
+         'of the wrong shape or element types, inert opcode soups, over-length frames; oracle: no exception escapes, '
+         'no server-side close except for an over-length frame, recorder equals the well-formed datapoints.',
+    ref='6 (C11), 9.2'),
+  'C12': dict(
+    technique=TECH + 'list files rewritten / emptied / deleted between datapoints while the 10 s reload timer runs on '
+    'the virtual clock; oracle = reference admission function over the list contents as of the last reload performed',
+    text='USE_WHITELIST on, generated whitelist/blacklist files (regex sets, empty, comments, uncompilable lines, '
+         'missing), MIN_TIMESTAMP_RESOLUTION 0/1/10/60, -1 timestamps, NaN/inf values, same datapoints over line, UDP '
+         'and pickle in interleaved segments; recorder and blacklistMatches/whitelistRejects counters must agree.',
+    ref='6 (C12)'),
   'C02': dict(
     technique=TECH + 'refinement of the real MetricCache against a dict-of-dict reference model stepped in '
     'lock-acquisition order, under seeded line-level interleavings of the receiving and writer threads',
